@@ -1,9 +1,12 @@
 (* C01 — the guarded propagations ("if the delta is not zero then walk") as single steps, in
    individual form. *)
 From Coq Require Import List ZArith Bool Lia.
-From Verif Require Import Lib.Vec2 C01.Model C01.Spec C01.Proofs_Base C01.Proofs_Walk C01.Proofs_Delta.
+From Verif Require Import Lib.VecN C01.Model C01.Spec C01.Proofs_Base C01.Proofs_Walk C01.Proofs_Delta.
 Import ListNotations.
 Open Scope Z_scope.
+
+Section WithDim.
+Context {D : Dim}.
 
 Definition nz2 (d dnp : vec) : bool := negb (viszero d) || negb (viszero dnp).
 
@@ -91,3 +94,5 @@ Section CWalk.
       rewrite !vadd_0_r. destruct self; destruct (U n); reflexivity.
   Qed.
 End CWalk.
+
+End WithDim.
